@@ -620,7 +620,7 @@ func (u *Unit) callFunc(st *State, call *ast.CallExpr, fn *types.Func) []Value {
 		}
 	}
 	cs.args = u.evalArgs(st, call, sig)
-	if len(u.frames) == 1 && u.spec != nil && (len(u.spec.Ghost) > 0 || len(u.spec.Asserts) > 0) {
+	if u.anchorsApply() && u.spec != nil && (len(u.spec.Ghost) > 0 || len(u.spec.Asserts) > 0) {
 		extra := map[string]Value{}
 		for i, a := range cs.args {
 			extra[fmt.Sprintf("$a%d", i)] = a
@@ -631,7 +631,7 @@ func (u *Unit) callFunc(st *State, call *ast.CallExpr, fn *types.Func) []Value {
 	if cs.copyBack != nil {
 		cs.copyBack(st)
 	}
-	if len(u.frames) == 1 && u.spec != nil && (len(u.spec.Ghost) > 0 || len(u.spec.Asserts) > 0) {
+	if u.anchorsApply() && u.spec != nil && (len(u.spec.Ghost) > 0 || len(u.spec.Asserts) > 0) {
 		extra := map[string]Value{}
 		for i, r := range res {
 			extra[fmt.Sprintf("$r%d", i)] = r
@@ -893,6 +893,8 @@ func (u *Unit) inlineFunc(st *State, cs *callSite, fi *fnInfo) []Value {
 	}
 	fr := u.newFrame(fn, sig, fi.decl.Body, fi.pkg.TypesInfo, fi.pkg.Types, spec, fi.decl.Type)
 	fr.inline = true
+	_, hasContract := u.eng.contracts[fn]
+	fr.transparent = !hasContract
 	u.stubsUsed["inlined:"+funcKey(fn)] = true
 	return u.runInline(st, fr, sig, cs.recv, cs.args)
 }
@@ -1073,7 +1075,15 @@ func (u *Unit) applyContract(st *State, cs *callSite, fc *FuncContract) []Value 
 	return results
 }
 
+// callName names a call site in obligation names: the called name without the receiver / package expression
+// (a.b.F(), tmp.F() and F() are all "F": introducing or removing a temporary must not rename obligations).
 func (u *Unit) callName(call *ast.CallExpr) string {
+	switch f := ast.Unparen(call.Fun).(type) {
+	case *ast.SelectorExpr:
+		return f.Sel.Name
+	case *ast.Ident:
+		return f.Name
+	}
 	return exprText(call.Fun)
 }
 
@@ -1201,6 +1211,10 @@ func (u *Unit) applyOnCall(st *State, cs *callSite) {
 			continue
 		}
 		u.eng.oncallHit.Store(c, true)
+		if u.clauseFired == nil {
+			u.clauseFired = map[*Clause]bool{}
+		}
+		u.clauseFired[c] = true
 		env := u.specEnvAt(st)
 		if cs.recv != nil {
 			env["$recv"] = *cs.recv
@@ -1574,6 +1588,7 @@ func (u *Unit) spawnLit(st *State, lit *ast.FuncLit, how string) {
 		u.subUnits = append(u.subUnits, su)
 		su.litFrame = fr
 	}
+	u.checkLitRequires(st, lit, fr.spec.Lits[ord], ord, how)
 	mods := u.modified(lit.Body)
 	// the goroutine runs concurrently from here on: what it writes is unknown to this thread
 	pm := &modSet{vars: map[types.Object]bool{}, keys: mods.keys, all: mods.all, ghost: mods.ghost}
@@ -1585,6 +1600,42 @@ func (u *Unit) spawnLit(st *State, lit *ast.FuncLit, how string) {
 	}
 	u.havocMods(st, pm)
 	u.spawned = append(u.spawned, pm)
+}
+
+// checkLitRequires: the literal's unit assumes its requires clauses; those that speak about captured
+// variables, ghosts or the heap (not about the literal's own parameters, which its caller supplies) are
+// obligations of the function that creates the literal, in the state at that point. A clause over the
+// literal's parameters remains an assumption about whoever calls the closure (a library: listed), and
+// held(...) of a new goroutine is its own, empty, lock set.
+func (u *Unit) checkLitRequires(st *State, lit *ast.FuncLit, spec *UnitSpec, ord int, how string) {
+	if spec == nil {
+		return
+	}
+	params := map[string]bool{}
+	if lit.Type.Params != nil {
+		for _, f := range lit.Type.Params.List {
+			for _, n := range f.Names {
+				params[n.Name] = true
+			}
+		}
+	}
+	for i, c := range spec.Requires {
+		overParams := false
+		for _, id := range specIdents(c.Text) {
+			if params[id] {
+				overParams = true
+			}
+		}
+		if overParams {
+			u.assumptions[fmt.Sprintf("%s/lit%d requires %q: over the literal's own parameters, assumed of the caller of the closure", u.name, ord, c.Text)] = true
+			continue
+		}
+		if strings.Contains(c.Text, "held(") && how != "callback" {
+			continue
+		}
+		t := u.specBoolAt(st, u.old, u.specEnvAt(st), c.Expr, c, lit.Pos())
+		u.oblige(st, fmt.Sprintf("lit%d/requires-at-creation#%d", ord, i+1), "requires", c.Props, t, lit.Pos(), c.Text)
+	}
 }
 
 // runLit verifies a spawned function literal as its own unit.
@@ -1648,12 +1699,13 @@ func (su *Unit) runLit() {
 	su.cover(st, "requires.sat", nil, token.NoPos)
 	su.runAnchorsNamed(st, "entry", su.lit.Body.Pos(), nil)
 	su.runBody(st, fr, su.lit.Body.Pos())
+	su.unfiredClauses()
 }
 
 // ---- channels
 
 func (u *Unit) chanKey(e ast.Expr) string {
-	return exprText(e)
+	return u.stableText(exprText(e)) // in the vocabulary of the baseline (renamed channel variables)
 }
 
 // chanRecvFacts: a received value satisfies the channel invariant "chan NAME: P(v)".
@@ -1717,9 +1769,30 @@ func (u *Unit) runAnchors(st *State, when string, s ast.Stmt) {
 	}
 }
 
+// anchorsApply: call anchors (before:/after:) fire for calls made by the function under contract itself and
+// by contract-less helpers inlined into it (as oncall clauses do); clause names are resolved in the function
+// under contract, at the position of the outermost call site.
+func (u *Unit) anchorsApply() bool {
+	for _, fr := range u.frames[1:] {
+		if !fr.transparent {
+			return false
+		}
+	}
+	return len(u.frames) == 1 || len(u.inlineSites) > 0
+}
+
 func (u *Unit) runAnchorsNamed(st *State, anchor string, pos token.Pos, extra map[string]Value) {
 	if u.spec == nil {
 		return
+	}
+	if len(u.frames) > 1 {
+		if !u.anchorsApply() {
+			return
+		}
+		saved := u.frames
+		u.frames = u.frames[:1]
+		defer func() { u.frames = saved }()
+		pos = u.inlineSites[0]
 	}
 	// ghost statements and assertions at the same anchor run in contract-file order
 	var cs []*Clause
@@ -1798,6 +1871,10 @@ func (u *Unit) runAnchorsNamed(st *State, anchor string, pos token.Pos, extra ma
 					idx = k + 1
 				}
 			}
+			if u.clauseFired == nil {
+				u.clauseFired = map[*Clause]bool{}
+			}
+			u.clauseFired[c] = true
 			u.oblige(st, fmt.Sprintf("assert#%d@%s", idx, c.Arg), "assert", c.Props, t, pos, c.Text)
 			st.assume(t)
 		}
@@ -1843,4 +1920,39 @@ func (u *Unit) callOrdinal(call *ast.CallExpr, short string) int {
 		return true
 	})
 	return found
+}
+
+// unfiredClauses: an assert@anchor or oncall clause whose point does not occur in the body holds vacuously; it
+// still gets its obligation (trivially true, under the name the real one would have) so that the ledger knows
+// it - when such a point appears later (a break out of a loop the contract says is never left that way, a
+// call the contract constrains) and the clause fails there, that is an obligation of the unchanged tree failing.
+func (u *Unit) unfiredClauses() {
+	if u.spec == nil {
+		return
+	}
+	for k, c := range u.spec.Asserts {
+		if c.Kind != "assert" || u.clauseFired[c] {
+			continue
+		}
+		u.oblige(newState(), fmt.Sprintf("assert#%d@%s", k+1, c.Arg), "assert", c.Props, TTrue, 0, c.Text+" (no such point in the body)")
+	}
+	for i, c := range u.spec.OnCall {
+		if u.clauseFired[c] {
+			continue
+		}
+		pat := c.Arg
+		if j := strings.LastIndex(pat, "#"); j > 0 {
+			if _, err := strconv.Atoi(pat[j+1:]); err == nil {
+				pat = pat[:j]
+			}
+		}
+		if strings.HasSuffix(pat, "*") {
+			continue
+		}
+		short := pat
+		if j := strings.LastIndex(short, "."); j >= 0 {
+			short = short[j+1:]
+		}
+		u.oblige(newState(), fmt.Sprintf("oncall#%d:%s@%s", i+1, pat, short), "oncall", c.Props, TTrue, 0, c.Text+" (no such call in the body)")
+	}
 }
